@@ -63,3 +63,13 @@ pub fn open_replicas_step<S: Src>(s: &mut S) {
     ck!(s, !st.is_open(&other), "other documents are unaffected");
     std::mem::forget(st);
 }
+
+/// A `SyncHandle` whose store actor is gone: the action channel is closed, so every request
+/// fails at once — what a session observes when the actor stops (or, equivalently for the
+/// session code, when the replica is closed or has sync disabled: the request returns an error).
+/// No thread is spawned.  Callers `mem::forget` it (its `Drop` expects a join handle).
+pub fn disconnected_handle() -> SyncHandle {
+    let (tx, rx) = async_channel::bounded::<Action>(1);
+    drop(rx);
+    SyncHandle { tx, join_handle: Arc::new(None), metrics: Arc::new(Metrics::default()) }
+}
